@@ -271,6 +271,61 @@ fn sweep(ctx: &Ctx, name: &str, context: &str, alphabet: &[&[u8]], max_len: usiz
     });
 }
 
+/// (d) run lengths: every construct of the grammar with ONE run of `n` equal items inside it, for every n up to
+/// `max_n` — the dimension the fixed-depth sweeps cannot reach (fixed-size scratch buffers, look-behind windows)
+pub const RUN_FILLERS: &[&[u8]] = &[b"a", b"s", b"p", b"x", b"i", b"n", b"t", b"A", b"S", b"-", b" ", b"<", b"\"", b"=", "é".as_bytes(), b"\xff", b"]", b"!"];
+pub const RUN_TEMPLATES: &[(&[u8], &[u8])] = &[
+    (b"<", b">"),
+    (b"</", b">"),
+    (b"<", b"/>"),
+    (b"<", b""),
+    (b"<", b" b=c>"),
+    (b"<a ", b"=v>"),
+    (b"<a ", b"/>"),
+    (b"<a b=", b">"),
+    (b"<a b=\"", b"\">"),
+    (b"<a b='", b"'>"),
+    (b"<a b=\"", b""),
+    (b"<!--", b"-->"),
+    (b"<!--", b""),
+    (b"<!", b">"),
+    (b"<!DOCTYPE ", b">"),
+    (b"<![CDATA[", b"]]>"),
+    (b"<script>", b"</script>"),
+    (b"<script><!--<script>", b"</script>--></script>"),
+    (b"<title>", b"</title>"),
+    (b"<title>", b"</titl"),
+    (b"<textarea>", b"</textarea >"),
+    (b"", b""),
+    (b"x", b"<b>"),
+];
+
+fn length_sweep(ctx: &Ctx, max_n: usize, kinds: &DistinctSet, samples: &Samples) {
+    let work: Vec<(usize, usize)> = (0..RUN_TEMPLATES.len()).flat_map(|t| (0..RUN_FILLERS.len()).map(move |f| (t, f))).collect();
+    par_range(ctx.threads, work.len(), |i| {
+        let (t, f) = work[i];
+        let (pre, post) = RUN_TEMPLATES[t];
+        for n in 1..=max_n {
+            let mut buf = pre.to_vec();
+            for _ in 0..n {
+                buf.extend_from_slice(RUN_FILLERS[f]);
+            }
+            buf.extend_from_slice(post);
+            for context in ["", "title"] {
+                ctx.eval(1);
+                match check_input_watched(&buf, context, "run-lengths") {
+                    Ok(k) => {
+                        if kinds.insert_str(&format!("{context}:{k}")) {
+                            samples.offer(|| json!({"sweep": "run-lengths", "context": context, "input": String::from_utf8_lossy(&buf), "token_kinds": k}));
+                        }
+                    }
+                    Err((kind, what)) => report(ctx, "run-lengths", context, &buf, kind, what),
+                }
+            }
+        }
+    });
+}
+
 pub fn replay(case: &Value) -> Vec<String> {
     let input: Vec<u8> = match serde_json::from_value(case["input"].clone()) {
         Ok(v) => v,
@@ -340,8 +395,13 @@ pub fn run(tier: Tier) -> i32 {
         sweep(&ctx, "bytes-in-context", context, &bytes_alpha_ref, lc, &kinds, &samples);
         sweep(&ctx, "tokens-in-context", context, TOKENS, tier.pick(2, 3), &kinds, &samples);
     }
+    let after_c = ctx.evaluations.load(std::sync::atomic::Ordering::Relaxed);
+    // (d)
+    let ld = tier.pick(80, 300);
+    length_sweep(&ctx, ld, &kinds, &samples);
     let total = ctx.evaluations.load(std::sync::atomic::Ordering::Relaxed);
     let mut cov = Coverage::new();
+    cov.set("d_run_lengths", json!({"templates": RUN_TEMPLATES.len(), "fillers": RUN_FILLERS.len(), "max_run": ld, "contexts": ["document", "title"], "inputs": total - after_c}));
     cov.set("evaluations", json!(total))
         .set("distinct_nontrivial", json!(kinds.len()))
         .set("rule", json!("every string is tokenised to the end; distinct_nontrivial = number of distinct (context, token-kind sequence) pairs observed"))
@@ -350,7 +410,7 @@ pub fn run(tier: Tier) -> i32 {
         .set("sweeps", json!({
             "a_all_byte_strings": {"alphabet": String::from_utf8_lossy(BYTES_ALPHABET), "max_len": la, "inputs": after_a},
             "b_all_token_sequences": {"tokens": TOKENS.len(), "max_tokens": lb, "inputs": after_b - after_a},
-            "c_in_fragment_contexts": {"contexts": &CONTEXTS[1..], "max_len_bytes": lc, "inputs": total - after_b},
+            "c_in_fragment_contexts": {"contexts": &CONTEXTS[1..], "max_len_bytes": lc, "inputs": after_c - after_b},
         }));
     cov.assume("inputs outside the alphabets / longer than the bounds are not covered")
         .assume("release profile (the shipped one): per-byte mutual recursion in the script states is compiled to loops");
